@@ -6,7 +6,7 @@ META = dict(
     engine="coq+hx_core",
     technique="Coq proof that the three byte-store back-ends implement one byte store + side-by-side differential execution of query histories on all database variants",
     level_text="PARTIAL. Machine-checked: C06_backends_agree_partial — for every sequence of well-positioned writes and resizes MemoryStorage, FileStorage's data file and the memory+file pair of the memory-mapped storage "
-               "hold the same bytes (and the pair stays in sync); C06_reads_agree; C06_gap_writes_agree. The step from the byte store to query results (generic Storage/collections/DbImpl code instantiated per back-end, "
+               "hold the same bytes (and the pair stays in sync); C06_reads_agree; C06_gap_writes_agree; and one layer up (module StorageLevel of Props/C06.v, models Storage.v of C04): C06_instances_lawful (each back-end, modelled literally, is a lawful byte store), C06_storage_parametric (Storage<D> run over any lawful byte store gives, for EVERY storage operation list, the observations of the canonical store), C06_backends_agree / C06_mem_file_agree (hence all three back-ends give identical observations for every operation list). The step from the byte store to query results (generic Storage/collections/DbImpl code instantiated per back-end, "
                "AnyStorage delegating) is an argument about Rust generics and is checked by running every query of generated histories on DbMemory, DbFile, Db, DbAny(memory/file/mapped) side by side: every result "
                "and error kind must be identical, and equal to the extracted database model's.",
     design_ref="DESIGN.md §5 C06",
